@@ -269,6 +269,26 @@ pub fn run(args: &Args, rep: &mut Report) {
             break;
         }
     }
+    for (i, text) in corpus().iter().enumerate() {
+        if (i as u64) % args.of.max(1) != args.worker {
+            continue;
+        }
+        let Ok(ast) = lib_parse(text) else { continue };
+        let hol = if has_holiday_selector(&ast) { HolSpec::Country("FR".into()) } else { HolSpec::None };
+        let Some(oh) = build(text, &hol) else { continue };
+        let mut r = Rng::new(args.seed, 0xc0c0, i as u64);
+        for _ in 0..6 {
+            let t = gen_instant(&mut r, &ast);
+            rep.evaluations += 1;
+            match check_instant_budget(&oh, Some(&ast), t, horizon, 9_000, &mut r, &mut st) {
+                Ok(_) => rep.count("corpus_instants_checked"),
+                Err(msg) => {
+                    rep.violation("state_next_change", format!("{text:?} [{}] (from the repository's sample/test sources): {msg}", hol.to_string()), json!({"expr": text, "holidays": hol.to_string(), "instant": t.to_string(), "horizon_days": horizon}), known::explained_by(&args.known, &ast));
+                    break;
+                }
+            }
+        }
+    }
     rep.add("days_point_checked_for_far_claims", st.days_checked);
     rep.add("skipped_days_point_checked", st.skipped_days_checked);
     rep.require("instants_checked", 20_000);
